@@ -62,7 +62,7 @@ var initWhitelist = map[string]bool{
 	"encoding/hex": true, "encoding/binary": true, "unicode/utf8": true,
 	"math/bits": true, "math": false, "path/filepath": true, "cmp": true,
 	"internal/itoa": true, "internal/stringslite": true, "io/fs": false,
-	"golang.org/x/crypto/chacha20poly1305": false,
+	"golang.org/x/crypto/chacha20poly1305": false, "golang.org/x/crypto/curve25519": true,
 }
 
 func (i *interpreter) wantInit(pkg *ssa.Package) bool {
